@@ -14,7 +14,7 @@ func (s sortAttributes) Len() int { return len(s) }
 
 func (s sortAttributes) Less(i, j int) bool {
 	a := s[i].OID
-	b := s[i].OID
+	b := s[j].OID
 
 	for len(a) > 0 || len(b) > 0 {
 		var x, y int
